@@ -108,6 +108,22 @@ impl<'ast> Visit<'ast> for LsVisitor
         syn::visit::visit_item_mod(self, m);
     }
 
+    fn visit_expr_call(&mut self, c: &'ast syn::ExprCall)
+    {
+        // a plain Regex::new(<literal>) outside lazy_static! (LazyLock / OnceLock styles): kept without a name
+        let e = syn::Expr::Call(c.clone());
+        if regex_literal(&e).is_some()
+        {
+            self.found.push(LazyStatic {
+                name: String::new(),
+                ty: "Regex".to_string(),
+                init: e,
+                file: self.file.clone(),
+            });
+        }
+        syn::visit::visit_expr_call(self, c);
+    }
+
     fn visit_macro(&mut self, m: &'ast syn::Macro)
     {
         if m.path.segments.last().map_or(false, |s| s.ident == "lazy_static")
@@ -308,7 +324,11 @@ pub fn translate(repo: &str) -> String
             {
                 refuse(&format!("regex static {} not found, and {} has {} Regex statics", role, file, in_file.len()));
             }
-            out.push_str(&format!("(* {} is called {} in the source now *)\n", role, in_file[0].name));
+            out.push_str(&format!(
+                "(* {} is {} in the source now *)\n",
+                role,
+                if in_file[0].name.is_empty() { "a plain Regex::new call".to_string() } else { format!("called {}", in_file[0].name) }
+            ));
             in_file[0]
         };
         let pat = regex_literal(&ls.init).unwrap_or_else(|| {
@@ -327,7 +347,7 @@ pub fn translate(repo: &str) -> String
     }
     for ls in &statics
     {
-        if emitted.contains(&ls.name)
+        if emitted.contains(&ls.name) || ls.name.is_empty()
         {
             continue;
         }
